@@ -152,6 +152,16 @@ def build_harness(ctx):
     if not os.path.exists(lock_dst):
         import shutil
         shutil.copy(lock_src, lock_dst)
+    # the crate under test is /repo's working tree; VERIF_REPO points the same machinery at another
+    # checkout (used only to try seeded changes without touching /repo): a cargo `paths` override
+    cfgdir = os.path.join(HARNESS, ".cargo")
+    cfg = os.path.join(cfgdir, "config.toml")
+    base = "[net]\noffline = true\n\n[build]\nrustflags = [\"--cfg\", \"cfb_verif\"]\n"
+    want = ("paths = [\"%s\"]\n\n" % os.path.realpath(REPO) if os.path.realpath(REPO) != "/repo" else "") + base
+    os.makedirs(cfgdir, exist_ok=True)
+    if not os.path.exists(cfg) or open(cfg).read() != want:
+        with open(cfg, "w") as f:
+            f.write(want)
     rc, out = run(["cargo", "build", "--offline"], cwd=HARNESS, timeout=3600)
     if rc != 0:
         errs = [l for l in out.splitlines() if l.startswith("error")][:5]
